@@ -101,14 +101,44 @@ def _dunders(ctx):
         for d in OPS:
             f = prog.func('calendar.IWorkCalendar.' + d)
             ex = Expander(prog, f, ctx.typer, inline=False)
-            rets = [n for n in walk_no_nested(f.node) if isinstance(n, ast.Return)]
-            if len(rets) != 1:
-                o.undecided(f, f.node, d, "operator does not have exactly one return")
+            allrets = [n for n in walk_no_nested(f.node) if isinstance(n, ast.Return)]
+
+            def comb(r):
+                if r.value is None:
+                    return None
+                vv = ex.expand(r.value)
+                mm = match("$K([$a, $b])", vv) or match("$K(($a, $b))", vv)
+                if mm and isinstance(mm['K'], ast.Name) and mm['K'].id in prog.classes:
+                    return mm
+                return None
+            building = [(r, comb(r)) for r in allrets if comb(r) is not None]
+            # every return path must build the combinator: a shortcut (`return self`, `return other`, a constant ..)
+            # makes the result differ from "the operator applied to the operands' values" on some date
+            shortcut = False
+            for r in allrets:
+                if comb(r) is None:
+                    vv = ex.expand(r.value) if r.value is not None else ast.Constant(value=None)
+                    conds = U.path_clauses(prog, f, r, ctx.typer, drop_raising=True)
+                    if isinstance(vv, (ast.Name, ast.Constant, ast.Attribute)) or (isinstance(vv, ast.Call) and not building):
+                        o.refute(f, r, r, f"`{d}` has a return path that does not build the combinator from [self, promoted other]: "
+                                          f"it returns `{src(vv)[:50]}`" + (" when " + ' and '.join(U.clause_text(c) for c in conds) if conds else '')
+                                 + "; for every date the result must be the operator applied to both operands' values "
+                                   "(e.g. a date without information on the left no longer yields the constant)")
+                    else:
+                        o.undecided(f, r, r, f"`{d}` returns `{src(vv)[:60]}` on one path")
+                    shortcut = True
+            if not building:
+                if not shortcut:
+                    o.undecided(f, f.node, d, "operator does not return Combinator([self, other])")
                 continue
-            v = ex.expand(rets[0].value)
-            m = match("$K([$a, $b])", v) or match("$K(($a, $b))", v)
-            if not m or not isinstance(m['K'], ast.Name) or m['K'].id not in prog.classes:
-                o.undecided(f, rets[0], rets[0], "operator does not return Combinator([self, other])")
+            if len({mm['K'].id for _, mm in building}) > 1:
+                o.refute(f, f.node, d, f"`{d}` builds different combinators on different paths: " +
+                         ', '.join(sorted({mm['K'].id for _, mm in building})))
+                continue
+            rets = [building[0][0]]
+            m = building[0][1]
+            if len(building) > 1 and not all(same(ex.expand(r.value), ex.expand(rets[0].value)) for r, _ in building):
+                o.undecided(f, f.node, d, "operator builds its combinator differently on different paths")
                 continue
             K = m['K'].id
             if not any(c.name == 'IWorkCalendar' for c in prog.mro(K)):
@@ -138,7 +168,8 @@ def _dunders(ctx):
                                               f"`a {SYM.get(OPS[d], '|')} b` would be evaluated as `b {SYM.get(OPS[d], '|')} a`")
                 continue
             table[d] = (K, f, rets[0])
-            o.site(f, rets[0], f"{d} -> {K}([self, other])")
+            if not shortcut:
+                o.site(f, rets[0], f"{d} -> {K}([self, other])")
             h = promoted(b)
             if h is None:
                 if isinstance(b, ast.Name) and b.id == other:
@@ -1383,13 +1414,33 @@ def _leaf_semantics(ctx):
 
 
 # ====================================================================================================== Resource: None -> 0
+def _is_abstract_stub(f):
+    body = [st for st in f.body if not (isinstance(st, ast.Expr) and isinstance(st.value, ast.Constant))]
+    return all(isinstance(st, ast.Pass) for st in body) or any(
+        getattr(d, 'id', getattr(d, 'attr', '')) == 'abstractmethod' for d in f.node.decorator_list)
+
+
+def _resource_defs(prog, name):
+    """every concrete definition of method `name` in IResource and its subclasses (base first)"""
+    out = []
+    for ci in [prog.cls('IResource')] + prog.subclasses('IResource'):
+        m = ci.methods.get(name)
+        if m is not None and not _is_abstract_stub(m):
+            out.append(m)
+    return out
+
+
 def _none_zero(ctx):
     prog = ctx.prog
     o = ctx.ob('none_is_zero', 'R8', "Resource.get_available_units returns 0 where the calendar has no information, the calendar "
                "value otherwise, for the date asked, and writes no state (no memo)", floor=2)
 
     def body(o):
-        f = prog.func('resource.Resource.get_available_units')
+        prog.func('resource.Resource.get_available_units')          # anchor
+        for f in _resource_defs(prog, 'get_available_units'):
+            one(o, f)
+
+    def one(o, f):
         date = f.params[1]
         eff = Effects(prog, ctx.typer, ctx.cg)
         ws = [w for w in eff.direct_writes(f) if w.root != 'fresh']
@@ -1408,7 +1459,7 @@ def _none_zero(ctx):
         c = ex.expand(calls[0])
         m = match("self.calendar.get_available_units($d)", c)
         if not m:
-            o.undecided(f, calls[0], calls[0], "the query is not self.calendar.get_available_units(date)")
+            o.undecided(f, calls[0], calls[0], f"{f.cls}: the query is not self.calendar.get_available_units(date)")
             return
         if not _name(m['d'], date):
             o.refute(f, calls[0], calls[0], f"the calendar is asked about `{src(m['d'])[:60]}` instead of the date `{date}`")
@@ -1486,7 +1537,68 @@ def _search(ctx):
                "counter += 1 once per iteration after the last use of the date; RuntimeError after the loop", floor=7)
 
     def body(o):
-        f = prog.func('resource.IResource.get_nearest_availability_date')
+        base = prog.func('resource.IResource.get_nearest_availability_date')
+        for f in _resource_defs(prog, 'get_nearest_availability_date'):
+            if f is base or f.qual == base.qual:
+                one(o, f)
+            else:
+                override(o, f, base)
+
+    def override(o, f, base):
+        """an override must keep the search: either it is the search loop itself, or it only delegates to the inherited
+        search with the caller's start date, direction and horizon"""
+        if any(isinstance(n, (ast.While, ast.For)) for n in walk_no_nested(f.node)):
+            one(o, f)
+            return
+        fl = flow_of(f)
+        ex = Expander(prog, f, ctx.typer)
+        rets = [n for n in walk_no_nested(f.node) if isinstance(n, ast.Return)]
+        if not rets:
+            o.refute(f, f.node, f.cls, f"{f.cls} overrides get_nearest_availability_date and never returns a date")
+            return
+        names = list(base.params[1:])
+        ok = True
+        for r in rets:
+            v = ex.expand(r.value) if r.value is not None else None
+            m = v is not None and (match("super().get_nearest_availability_date($*a)", v)
+                                   or match("IResource.get_nearest_availability_date(self, $*a)", v))
+            if not m or any(isinstance(x, ast.Starred) for x in m['a']):
+                if isinstance(v, (ast.Name, ast.Constant, ast.BinOp)) or v is None:
+                    o.refute(f, r, r, f"{f.cls}.get_nearest_availability_date returns `{src(v) if v is not None else None}` without searching: "
+                                      f"the result is not the nearest date with positive capacity")
+                else:
+                    o.undecided(f, r, r, f"{f.cls} overrides get_nearest_availability_date in a shape the rule does not understand")
+                ok = False
+                continue
+            call = v
+            given = dict(zip(names, m['a']))
+            for k in call.keywords:
+                given[k.arg] = k.value
+            for p in names:
+                role = {'max_days': 'horizon', 'direction': 'direction'}.get(p, 'start date')
+                if p not in f.params:
+                    o.undecided(f, r, r, f"{f.cls} override has no parameter {p}")
+                    ok = False
+                    continue
+                redef = [d for d in fl.defs_of(p) if d.kind != 'param']
+                if redef:
+                    o.refute(f, redef[0].stmt, redef[0].stmt, f"{f.cls} overrides get_nearest_availability_date and changes the {role} "
+                                                              f"`{p}` before delegating to the inherited search: the search no longer covers the caller's "
+                                                              f"{role} (RuntimeError must be raised exactly when no date exists within the horizon)")
+                    ok = False
+                elif p not in given:
+                    if p == 'max_days':
+                        o.refute(f, r, r, f"{f.cls} override does not pass the caller's max_days on: the inherited default horizon is used")
+                        ok = False
+                elif not _name(given[p], p):
+                    o.refute(f, r, given[p], f"{f.cls} overrides get_nearest_availability_date and passes `{src(given[p])[:50]}` as {role} "
+                                              f"instead of the caller's `{p}`")
+                    ok = False
+        if ok:
+            # the defaults of the override must agree with the base (max_days=100000)
+            o.site(f, f.node, f"{f.cls} override only delegates to the inherited search with unchanged arguments")
+
+    def one(o, f):
         for p in ('direction', 'max_days'):
             if p not in f.params:
                 o.fail(f"get_nearest_availability_date has no parameter {p}")
@@ -1518,9 +1630,15 @@ def _search(ctx):
             o.undecided(f, loop, loop.test, "loop test does not compare a counter with max_days")
             return
         K = l.id
-        if any(d.kind != 'param' for d in fl.defs_of('max_days')):
-            o.undecided(f, loop, 'max_days', "max_days is reassigned")
+        redef = [d for d in fl.defs_of('max_days') if d.kind != 'param']
+        if redef:
+            o.refute(f, redef[0].stmt, redef[0].stmt, "the horizon `max_days` is changed inside the search: RuntimeError must be raised "
+                                                      "exactly when no date exists within the caller's horizon")
             return
+        simple = (ast.Assign, ast.AnnAssign, ast.AugAssign, ast.Expr, ast.Pass)
+        early = [st for st in pre if not isinstance(st, simple)]
+        if early:
+            o.undecided(f, early[0], early[0], "code before the search loop can leave the function or branch: the loop shape alone does not decide the result")
         if op == '<':
             pass
         elif op == '<=':
